@@ -17,3 +17,4 @@ for ID in $IDS; do
   done
   git -C /repo checkout -- .
 done
+(cd /verif/harness && cargo build --release --offline >/dev/null 2>&1)
